@@ -362,6 +362,16 @@ def r06_6(ctx):
         ctx.saw_func(fi)
     passes_ord(fn, lambda c: src(c.func) == "self._val.norm", "self._val.norm(ord)")
     passes_ord(an, lambda c: src(c.func) in ("np.linalg.norm", "numpy.linalg.norm"), "np.linalg.norm(flat, ord)")
+    # ... on every path: no shortcut that answers from the memory layout or from a single element
+    from ..terms import inline_at as _inl
+    cfg_an = cfg_of(an)
+    rd_an = cfg_an.reaching_defs(an.params())
+    for n_ in cfg_an.nodes:
+        if n_.kind == "stmt" and isinstance(n_.ast, ast.Return) and n_.ast.value is not None:
+            e_ = _inl(cfg_an, rd_an, n_.id, n_.ast.value, depth=4)
+            through = any(isinstance(c_, ast.Call) and src(c_.func) in ("np.linalg.norm", "numpy.linalg.norm") for c_ in ast.walk(e_))
+            ctx.check("R06.6", f"{an.key}::`{short(n_.ast, 50)}` is the numpy norm of the flattened array", through,
+                      f"`{src(e_)[:90]}` is not computed from all entries (a stride-0 view is not necessarily constant: broadcast along SOME axes)", an, n_.ast)
     # MultiField.norm
     ordn = mn.params()[1]
     cfg = cfg_of(mn)
@@ -699,3 +709,48 @@ _run_c06c = run
 def run(ctx):  # noqa: F811
     _run_c06c(ctx)
     r06_10(ctx)
+
+
+def r06_11(ctx):
+    """index-space typing of `spaces`"""
+    m = ctx.model
+    F = m.cls(FLD, "Field")
+    ctx.rule("R06.11", "sub-domain indices derived from the `spaces` argument refer to THIS field's domain tuple: in integrate / mean / "
+                       "var / std they are only handed to methods of `self` or of fields on the same domain (self.weight(...), "
+                       "element-wise results) - never to a field that has already been contracted (result of self.sum / integrate / "
+                       "mean over some sub-domains), whose tuple is shorter and numbered differently", floor=4)
+    contracting = {"sum", "integrate", "mean", "var", "std", "prod", "s_sum", "_contraction_helper"}
+    for name in ("integrate", "mean", "var", "std"):
+        fi = F.methods.get(name)
+        if fi is None:
+            continue
+        ctx.saw_func(fi)
+        # names bound to contracted fields
+        contracted = set()
+        changed = True
+        while changed:
+            changed = False
+            for st in walk_no_nested(fi.node):
+                if isinstance(st, ast.Assign) and isinstance(st.targets[0], ast.Name) and st.targets[0].id not in contracted:
+                    v = st.value
+                    roots = [c for c in ast.walk(v) if isinstance(c, ast.Call) and isinstance(c.func, ast.Attribute) and c.func.attr in contracting
+                             and (c.args or c.keywords) and (src(c.func.value) == "self" or src(c.func.value) in contracted or (isinstance(c.func.value, ast.Call)))]
+                    partial_ = [c for c in roots if not (len(c.args) + len(c.keywords) == 0)]
+                    if partial_ and not (isinstance(v, ast.Call) and isinstance(v.func, ast.Attribute) and v.func.attr == "weight"):
+                        contracted.add(st.targets[0].id)
+                        changed = True
+        bad = []
+        for c in walk_no_nested(fi.node):
+            if isinstance(c, ast.Call) and isinstance(c.func, ast.Attribute) and c.func.attr in (contracting | {"weight", "total_volume", "scalar_weight"}) \
+                    and isinstance(c.func.value, ast.Name) and c.func.value.id in contracted and (c.args or c.keywords):
+                bad.append(c)
+        ctx.check("R06.11", f"{fi.key}::`spaces`-derived indices are applied to fields on the original domain only", not bad,
+                  f"`{short(bad[0], 70)}`: `{bad[0].func.value.id}` is already contracted, its sub-domains are numbered differently" if bad else None, fi, bad[0] if bad else None)
+
+
+_run_c06d = run
+
+
+def run(ctx):  # noqa: F811
+    _run_c06d(ctx)
+    r06_11(ctx)
